@@ -513,15 +513,22 @@ pub fn patch(
             let width = target_patch_region.width;
             let height = target_patch_region.height;
 
-            let left = target_patch_region.left - target.x;
-            let top = target_patch_region.top - target.y;
-
-            let ref_patch_region = ref_grid_region.intersection(Region {
-                left: patch_ref.x0 as i32 + left,
-                top: patch_ref.y0 as i32 + top,
-                width,
-                height,
-            });
+            // Patch coordinates come from the bitstream: these offsets may not fit `i32`. Such a
+            // source rectangle lies outside every reference frame, so nothing is blended.
+            let left = target_patch_region.left as i64 - target.x as i64;
+            let top = target_patch_region.top as i64 - target.y as i64;
+            let ref_left = i32::try_from(patch_ref.x0 as i64 + left);
+            let ref_top = i32::try_from(patch_ref.y0 as i64 + top);
+            let ref_patch_region = if let (Ok(left), Ok(top)) = (ref_left, ref_top) {
+                ref_grid_region.intersection(Region {
+                    left,
+                    top,
+                    width,
+                    height,
+                })
+            } else {
+                Region::with_size(0, 0)
+            };
 
             let width = ref_patch_region.width as usize;
             let height = ref_patch_region.height as usize;
